@@ -114,6 +114,16 @@ impl Assertion {
                     )
                     .into());
                 }
+                // another stored rule may still imply the same link (rules
+                // longer than the definition): keep the link then
+                if !insert
+                    && count <= 3
+                    && self.policy.iter().any(|r| {
+                        r.len() >= count && r[..count] == rule[..count]
+                    })
+                {
+                    continue;
+                }
                 if count == 2 {
                     if insert {
                         rm.write().add_link(&rule[0], &rule[1], None);
